@@ -195,6 +195,8 @@ S_SNIPPETS = [
     "extern \"a\\nb\" { fn f(); }\nextern \"C\" { fn g(); }\n",
     "extern \"C\\\n\" { fn f(); }\nunsafe extern r\"a\nb\" {}\n",
     "fn lg() {\n    a();\n    // " + "\u00e9" * 31 + " words words words\n    b(); /* " + "\u2603" * 17 + " */\n    c();\n}\n",
+    "#[rustfmt]\nfn ra() {}\n#[rustfmt::skip::other]\nfn rb() { #[rustfmt] let x = 1; }\nmod rq { #![rustfmt] }\n#[clippy]\nstruct Rc;\n",
+    "#[rustfmt::skip::macros]\nfn rc() {}\n#[rustfmt::skip::attributes(derive)]\n#[derive( Debug )]\n#[rustfmt(skip)]\nstruct Rd;\n#[rustfmt::]\nfn re() {}\n",
     "#[cfg(any())] const FX: f32 = 0b1f32;\nfn fl() { let x = 0o7f64; let s = 0b1f32..; let t = 1.0f32; let u = 2.; }\n",
 ]
 LEX_WS = ["\u0085", "\u200e", "\u200f", "\u2028", "\u2029"]      # white space for the lexer (Pattern_White_Space)
